@@ -32,7 +32,6 @@ NOT_BUILT = {
  "C04": "contract designed (DESIGN section 4); the C front end (clang JSON AST interpreter) is not built",
  "C08": "contract designed (DESIGN section 4); not built yet",
  "C12": "contract designed (DESIGN section 4); not built yet",
- "C13": "contract designed (DESIGN section 4); not built yet",
  "C24": "contract designed (DESIGN section 4); the C front end (clang JSON AST interpreter) is not built, vm_mngr.c is out of the Python verifier's reach",
  "C27": "contract designed (DESIGN section 4); bounded contract enumeration not built yet",
  "C30": "contract designed (DESIGN section 4); bounded inductiveness enumeration not built yet",
